@@ -441,6 +441,9 @@ pub struct Knobs {
     pub shards: usize,
     pub hash_seed: u64,
     pub rng_seed: u64,
+    /// ring N: clock advances of two seconds and more happen in one jump, as if the thread
+    /// driving the 1 Hz timer had been stalled meanwhile (it has to catch up afterwards)
+    pub stall: bool,
 }
 
 impl Knobs {
@@ -455,9 +458,17 @@ impl Knobs {
             shards: 4,
             hash_seed: seed,
             rng_seed: seed ^ 0xabcdef,
+            stall: false,
         }
     }
     pub fn to_json(&self) -> Value {
+        let mut v = self.to_json_base();
+        if self.stall {
+            v["stall"] = json!(true);
+        }
+        v
+    }
+    fn to_json_base(&self) -> Value {
         json!({
             "policy": if self.policy == Policy::None { "none" } else { "random" },
             "memory_limit": self.memory_limit,
@@ -486,6 +497,7 @@ impl Knobs {
             shards: u("shards")? as usize,
             hash_seed: u("hash_seed")?,
             rng_seed: u("rng_seed")?,
+            stall: v.get("stall").and_then(|x| x.as_bool()).unwrap_or(false),
         })
     }
 }
